@@ -648,6 +648,37 @@ pub fn run_c12(ctx: &mut Ctx) {
             pool.push(item(m, rt, json!({"rerouted_from": l.to_string(), "route": rt})));
         }
     }
+    // every real-world script, region, variant and language once, in the same position of an otherwise equal
+    // identifier: the all-pairs phase then compares every ordered pair of them (an Ord that packs a subtag into an
+    // integer, or compares lengths first, disagrees with the field-by-field order on particular pairs only)
+    {
+        use crate::lexicon as lx;
+        let add = |text: String, pool: &mut Vec<Item>| {
+            if let Ok(l) = text.parse::<Locale>() {
+                pool.push(item(l, "lexicon", json!({"text": text})));
+            }
+        };
+        for (i, w) in lx::SCRIPTS.iter().enumerate() {
+            if crate::refspec::is_script(w.as_bytes()) && (!quick || i % 2 == 0) {
+                add(format!("mn-{}", w), &mut pool);
+            }
+        }
+        for (i, w) in lx::REGIONS.iter().enumerate() {
+            if crate::refspec::is_region(w.as_bytes()) && (!quick || i % 2 == 0) {
+                add(format!("es-{}", w), &mut pool);
+            }
+        }
+        for (i, w) in lx::VARIANTS.iter().enumerate() {
+            if crate::refspec::is_variant(w.as_bytes()) && (!quick || i % 3 == 0) {
+                add(format!("de-{}", w), &mut pool);
+            }
+        }
+        for (i, w) in lx::LANGS.iter().enumerate() {
+            if crate::refspec::is_lang(w.as_bytes()) && (!quick || i % 3 == 0) {
+                add(w.to_string(), &mut pool);
+            }
+        }
+    }
     ctx.extra.insert("pool".into(), json!({"values": pool.len(), "logical_values": logical, "ordered_pairs": pool.len() * pool.len()}));
     // (a) all ordered pairs, rows sharded
     let n = pool.len();
